@@ -31,6 +31,7 @@ CONSTANTS
   EveryExitStops = TRUE
   RxDropAtLoopEnd = TRUE
   DequeueBatch = 0
+  StopAlwaysHandled = TRUE
   QueueCap = 0
 SPECIFICATION Spec
 VIEW View
